@@ -11,6 +11,7 @@ with any message, at-tip rounds against ANY network: any number of peers, any
 answers, any served filters, any verification table, any map order / pick).
 -/
 import Neutrino.Lemmas.CFHeaders
+import Neutrino.Lemmas.CFHonest
 import Neutrino.Gen.CFHeaders
 namespace Neutrino.CFHeaders
 
@@ -92,20 +93,17 @@ theorem C03_hash_chain (H : FHash → Hdr → Hdr) (s0 : St) (h0 : Inv H s0) (op
   (inv_run H ops s0 h0).chain
 
 /-- (b) entries are appended only as hash-chain successors of the current tip:
-one operation either leaves a prefix of the store (rollback), or appends
-`H f₁ tip, H f₂ (H f₁ tip), …` for a batch of filter hashes `f₁ f₂ …` whose
-`PrevFilterHeader` is the current tip -/
-theorem C03_hash_chain_step (H : FHash → Hdr → Hdr) (ff : Bool) (s : St) (op : Op) :
-    (step H ff s op).1.fstore <+: s.fstore ∨
-    ∃ prev hashes, s.fstore.getLast? = some prev ∧
-      (step H ff s op).1.fstore = s.fstore ++ chainFrom H prev hashes := by
+one operation — including a whole checkpointed fetch with any arrival order,
+duplicates and the first-interval re-basing, and `resolveConflict` — either
+leaves a prefix of the store (rollback), or grows it by appending, one after
+the other, batches `H f₁ tip, H f₂ (H f₁ tip), …` each started at the
+then-current tip (`Grows`) -/
+theorem C03_hash_chain_step (H : FHash → Hdr → Hdr) (ff : Bool) (s : St) (hi : Inv H s) (op : Op) :
+    (step H ff s op).1.fstore <+: s.fstore ∨ Grows H s.fstore (step H ff s op).1.fstore := by
   cases op with
   | ext ids => exact Or.inl (List.prefix_refl _)
   | rb h => exact Or.inl (rollbackLoop_fstore_prefix ff h _ s)
-  | wr prev stop hashes =>
-    rcases writeMsg_fstore H s prev stop hashes with h | ⟨h1, h2⟩
-    · left; show (writeMsg H s prev stop hashes).1.fstore <+: s.fstore; rw [h]; exact List.prefix_refl _
-    · exact Or.inr ⟨prev, hashes, h1, h2⟩
+  | wr prev stop hashes => exact Or.inr (grows_writeMsg H s prev stop hashes)
   | tip net =>
     obtain ⟨s2, a, _, _, h⟩ := tipRound_shape H s net
     show (tipRound H s net).1.fstore <+: s.fstore ∨ _
@@ -114,10 +112,15 @@ theorem C03_hash_chain_step (H : FHash → Hdr → Hdr) (ff : Bool) (s : St) (op
     · rcases commitPick_fstore H s2 net.pick hs2 with c | ⟨pm, _, c1, c2⟩
       · left; rw [h, c, a]; exact List.prefix_refl _
       · right
-        refine ⟨pm.2.prev, pm.2.hashes, ?_, ?_⟩
-        · rw [← a]; exact c1
-        · show (tipRound H s net).1.fstore = _
-          rw [h, c2, a]
+        show Grows H s.fstore (tipRound H s net).1.fstore
+        rw [h, c2, a]
+        exact Grows.step pm.2.prev pm.2.hashes (Grows.refl _) (by rw [← a]; exact c1)
+  | resolve interval hard net cp =>
+    left
+    show (resolveConflict interval hard s net cp).1.fstore <+: s.fstore
+    rw [(resolveConflict_frame interval hard s net cp).1]
+    exact List.prefix_refl _
+  | cp interval cps evs => exact Or.inr (cpRound_ok H interval s cps evs hi).2
 
 example : (step (fun f p => 100 * p + f) true { blocks := [0, 1, 2], fstore := [1], fblk := [0] }
     (.wr 1 2 [7, 8])).1.fstore = [1, 107, 10708] := by decide
@@ -151,6 +154,66 @@ theorem C03_checkpoints (interval : Nat) (hard : Nat → Option Hdr) (s : St) (c
 example : (hardPass 1000 (fun h => if h = 1000 then some 5 else none) genesis
     [(1, [5, 9]), (2, [6, 9])]).2 = [(1, [5, 9])] := by decide
 
+/-- (c) the checkpoint list `resolveConflict` agrees on — whichever arm it
+took, whatever the peers answered, whichever list the map iteration met first —
+equals every hard-coded filter-header checkpoint at its height -/
+theorem C03_checkpoints_resolve (interval : Nat) (hard : Nat → Option Hdr) (s : St) (net : Net)
+    (cp : List (Peer × List Hdr)) (good : List Hdr)
+    (h : (resolveConflict interval hard s net cp).2 = .ok good) :
+    ∀ i c x, hard ((i + 1) * interval) = some c → good[i]? = some x → x = c := by
+  obtain ⟨pc, hpc, e⟩ := resolveConflict_ok interval hard s net cp good h
+  intro i c x hh hx
+  rw [← e] at hx
+  exact (C03_checkpoints interval hard s cp).1 pc hpc i c x hh hx
+
+/-- (c) on the checkpointed path: a batch that passed `verifyCheckpoint` and
+is written as it came (every batch but the re-based first one) ends exactly at
+the agreed checkpoint, which — by `C03_checkpoints` — agrees with every
+hard-coded checkpoint -/
+theorem C03_checkpoint_batches (H : FHash → Hdr → Hdr) (s : St) (prevCp nextCp prev : Hdr) (stop : Blk)
+    (hashes : List FHash) (last : Hdr) (e : Nat)
+    (hv : verifyCp H prevCp nextCp prev hashes = true)
+    (hw : writeMsg H s prev stop hashes = ((writeMsg H s prev stop hashes).1, .ok last e)) :
+    last = nextCp ∧ (writeMsg H s prev stop hashes).1.fstore.getLast? = some nextCp := by
+  unfold verifyCp at hv
+  simp only [Bool.and_eq_true, beq_iff_eq] at hv
+  rcases writeMsg_cases' H s prev stop hashes with ⟨o, ho, hno⟩ | ⟨e', hl, hn0, heq⟩
+  · rw [ho] at hw
+    have := (Prod.mk.inj hw).2
+    exact absurd this (hno last e)
+  · have h2 : (writeMsg H s prev stop hashes).2 = .ok last e := by rw [hw]
+    rw [heq] at h2
+    simp only [WOut.ok.injEq] at h2
+    have hlast : last = nextCp := by rw [← h2.1]; exact hv.2
+    refine ⟨hlast, ?_⟩
+    rw [heq]
+    simp only
+    have hne : chainFrom H prev hashes ≠ [] := by
+      intro h0
+      have := congrArg List.length h0
+      rw [chainFrom_length] at this
+      exact hn0 this
+    rw [List.getLast?_append]
+    cases hc : (chainFrom H prev hashes).getLast? with
+    | none => exact absurd (List.getLast?_eq_none_iff.mp hc) hne
+    | some x =>
+      have := hv.2
+      rw [hc] at this
+      simp only [Option.getD_some] at this
+      rw [this]; rfl
+
+/-- (c) is FALSE on the at-tip path (finding `tip-path-skips-hardcoded-checkpoint`):
+`getUncheckpointedCFHeaders` never consults the hard-coded filter-header
+checkpoints.  Block 1 has the true filter hash 7, the hard-coded checkpoint at
+height 1 is `H 7 genesis = 107`; the only peer answers with the self-consistent
+false hash 8 — `108` is committed. -/
+theorem C03_checkpoints_tip_counterexample :
+    let s : St := { blocks := [0, 1], fstore := [1], fblk := [0] }
+    let net : Net := { peers := [1], resps := fun _ => [⟨true, 1, [8]⟩], served := fun _ _ => some 8,
+                       verify := fun _ _ => .bad, getBlock := fun _ => true, pick := 0 }
+    (tipRound (fun f p => 100 * p + f) s net).1.fstore = [1, 108] ∧
+    checkpointsObs [(1, 107)] (tipRound (fun f p => 100 * p + f) s net).1.fstore = false := by decide
+
 /-! ### (d) honest wins -/
 
 /-- the mechanism of F12 in the model, for every network and state: as soon as
@@ -162,14 +225,6 @@ theorem C03_detect_early_return (net : Net) (s : St) (hs : List (Peer × Msg)) (
   unfold detect
   simp only [hne, Bool.not_false, ↓reduceIte]
 
-
-/-- the round as the property sees it -/
-def roundOf (s : St) (net : Net) (truth : Nat → FHash) : Round :=
-  { peers := net.peers.filter (live s), resps := net.resps, served := net.served, verify := net.verify,
-    getBlock := net.getBlock, tip := (s.fstore.getLast?).getD 0, start := s.fstore.length,
-    n := batchLen s, truth := truth }
-
-def newBans (s s' : St) : List Peer := (s'.bans.drop s.bans.length).map (·.1)
 
 /-- the honest-wins clause for one round from state `s` -/
 def HonestWinsAt (H : FHash → Hdr → Hdr) (s : St) (net : Net) (truth : Nat → FHash) : Prop :=
@@ -219,5 +274,76 @@ theorem C03_honest_wins_counterexample_commits_false :
     -- and with the other map order the honest header is committed, the liar still not banned
     (tipRound Cex.H Cex.s (Cex.net 0)).1.fstore = [1, 107] ∧
     (tipRound Cex.H Cex.s (Cex.net 0)).1.bans = [(2, 3)] := by decide
+
+
+/-- Clause (d) under the negation of the two recorded shapes: in a round that
+is NOT of the F12 shape (`shapeEarlyReturn`: at one index a responding peer is
+silent / self-inconsistent AND another is a self-consistent liar) and in which
+nobody advertises the all-zero hash (`noZero`), whenever an honest peer answers
+and every false value is provably inconsistent, the batch committed is the
+honest one, every liar is banned and no honest peer is — for every hash
+function, every state satisfying the invariant (block ids distinct), every
+number of peers, every assignment of answers / served filters / verification
+results, every order of the peer map and every pick. -/
+theorem C03_honest_wins_partial (H : FHash → Hdr → Hdr) (s : St) (net : Net) (truth : Nat → FHash)
+    (hi : Inv H s) (hnd : s.blocks.Nodup)
+    (hshape : (roundOf s net truth).shapeEarlyReturn = false)
+    (hzero : (roundOf s net truth).noZero = true) :
+    HonestWinsAt H s net truth :=
+  fun hahead hhyp => honest_wins_round H s net truth hi hnd hahead hhyp hshape hzero
+
+namespace ExPartial
+/-- peer 1 honest; peer 2 advertises a false hash but serves the true filter
+(caught by phase 1); peer 3 sends a wrong previous header; peer 4 a
+self-consistent false filter at the second height (caught by the block) -/
+def s : St := { blocks := [0, 1, 2], fstore := [1], fblk := [0] }
+def truth : Nat → FHash := fun h => 6 + h
+def net (pick : Nat) : Net :=
+  { peers := [4, 2, 1, 3]
+    resps := fun p =>
+      if p = 2 then [⟨true, 1, [9, 8]⟩] else if p = 3 then [⟨true, 5, [7, 8]⟩]
+      else if p = 4 then [⟨false, 1, [7, 8]⟩, ⟨true, 1, [7, 9]⟩] else [⟨true, 1, [7, 8]⟩]
+    served := fun p h => if p = 4 ∧ h = 2 then some 9 else some (6 + h)
+    verify := fun f _ => if f = 9 then .bad else .ok 0
+    getBlock := fun _ => true
+    pick := pick }
+end ExPartial
+
+/-- the hypotheses of `C03_honest_wins_partial` are satisfiable with liars of
+three kinds present, and its conclusion is what the model computes -/
+example : (roundOf ExPartial.s (ExPartial.net 0) ExPartial.truth).hyp = true ∧
+    (roundOf ExPartial.s (ExPartial.net 0) ExPartial.truth).shapeEarlyReturn = false ∧
+    (roundOf ExPartial.s (ExPartial.net 0) ExPartial.truth).noZero = true ∧
+    ExPartial.s.blocks.Nodup ∧
+    (tipRound Cex.H ExPartial.s (ExPartial.net 0)).1.fstore = [1, 107, 10708] ∧
+    (tipRound Cex.H ExPartial.s (ExPartial.net 0)).1.bans = [(3, 3), (2, 3), (4, 3)] := by decide
+
+namespace CexZero
+/-- peer 1 honest; peer 2 advertises the all-zero filter hash and serves nothing.
+The map iteration meets peer 2 first in the mismatch test (the zero hash is
+taken for "no value yet", so no mismatch is seen) and in the final pick. -/
+def net : Net :=
+  { peers := [2, 1]
+    resps := fun p => if p = 2 then [⟨true, 1, [0]⟩] else [⟨true, 1, [7]⟩]
+    served := fun p _ => if p = 1 then some 7 else none
+    verify := fun _ _ => .ok 0
+    getBlock := fun _ => true
+    pick := 0 }
+end CexZero
+
+/-- second, independent counterexample to clause (d) (finding
+`zero-hash-sentinel`): `checkForCFHeaderMismatch` uses the all-zero hash as
+"unset", so a peer advertising it is not seen to disagree when the map iteration
+meets it first; it is not banned and `H 0 tip` can be committed.  Not of the F12
+shape. -/
+theorem C03_honest_wins_counterexample_zero :
+    ¬ HonestWinsAt Cex.H Cex.s CexZero.net Cex.truth ∧
+    (roundOf Cex.s CexZero.net Cex.truth).hyp = true ∧
+    (roundOf Cex.s CexZero.net Cex.truth).shapeEarlyReturn = false ∧
+    (roundOf Cex.s CexZero.net Cex.truth).noZero = false ∧
+    (tipRound Cex.H Cex.s CexZero.net).1.fstore = [1, 100] ∧
+    (tipRound Cex.H Cex.s CexZero.net).1.bans = [] := by
+  unfold HonestWinsAt
+  decide
 
 end Neutrino.CFHeaders
